@@ -490,6 +490,28 @@ pub trait VxToString { spec fn dview(&self) -> Seq<char>; fn vx_string(&self) ->
 impl VxToString for String { open spec fn dview(&self) -> Seq<char> { self@ } #[verifier::external_body] fn vx_string(&self) -> (r: String) { self.clone() } }
 impl VxToString for str { open spec fn dview(&self) -> Seq<char> { self@ } #[verifier::external_body] fn vx_string(&self) -> (r: String) { self.to_string() } }
 impl VxToString for char { open spec fn dview(&self) -> Seq<char> { seq![*self] } #[verifier::external_body] fn vx_string(&self) -> (r: String) { self.to_string() } }
+/// Display of the integer types (decimal rendering, uninterpreted)
+pub uninterp spec fn int_text(i: int) -> Seq<char>;
+impl VxToString for u32 { open spec fn dview(&self) -> Seq<char> { int_text(*self as int) } #[verifier::external_body] fn vx_string(&self) -> (r: String) { self.to_string() } }
+impl VxToString for u8 { open spec fn dview(&self) -> Seq<char> { int_text(*self as int) } #[verifier::external_body] fn vx_string(&self) -> (r: String) { self.to_string() } }
+impl VxToString for u16 { open spec fn dview(&self) -> Seq<char> { int_text(*self as int) } #[verifier::external_body] fn vx_string(&self) -> (r: String) { self.to_string() } }
+impl VxToString for u64 { open spec fn dview(&self) -> Seq<char> { int_text(*self as int) } #[verifier::external_body] fn vx_string(&self) -> (r: String) { self.to_string() } }
+impl VxToString for usize { open spec fn dview(&self) -> Seq<char> { int_text(*self as int) } #[verifier::external_body] fn vx_string(&self) -> (r: String) { self.to_string() } }
+impl VxToString for i32 { open spec fn dview(&self) -> Seq<char> { int_text(*self as int) } #[verifier::external_body] fn vx_string(&self) -> (r: String) { self.to_string() } }
+/// `Vec<String>::join(sep)`
+pub uninterp spec fn join_spec(v: Seq<String>, sep: Seq<char>) -> Seq<char>;
+pub trait VxJoinStrings { fn vx_join(&self, sep: &str) -> (r: String); }
+impl VxJoinStrings for Vec<String> { #[verifier::external_body] fn vx_join(&self, sep: &str) -> (r: String) ensures r@ == join_spec(self@, sep@) { self.join(sep) } }
+/// `format!("{SPEC}", x)` for a format spec whose rendering is not modelled ({:03}, {:.2}, ...): some string
+#[verifier::external_body]
+pub fn fmt_opaque<T>(spec: &str, x: &T) -> (r: String) { unimplemented!() }
+/// stands for a computed format! argument the extraction abstracts (see rsx.abs_format_args): renders as an arbitrary string
+pub struct AnyArg { pub g: Ghost<int> }
+pub uninterp spec fn any_arg_text(a: AnyArg) -> Seq<char>;
+impl VxToString for AnyArg { open spec fn dview(&self) -> Seq<char> { any_arg_text(*self) } #[verifier::external_body] fn vx_string(&self) -> (r: String) { unimplemented!() } }
+impl AnyArg { #[verifier::external_body] pub fn vx_pad2(self) -> (r: String) { unimplemented!() } }
+#[verifier::external_body]
+pub fn any_arg() -> AnyArg { unimplemented!() }
 #[verifier::external_body] pub fn cat1(p0: &str) -> (r: String) ensures r@ == p0@ { [p0].concat() }
 #[verifier::external_body] pub fn cat2(p0: &str, p1: &str) -> (r: String) ensures r@ == p0@ + p1@ { [p0, p1].concat() }
 #[verifier::external_body] pub fn cat3(p0: &str, p1: &str, p2: &str) -> (r: String) ensures r@ == p0@ + p1@ + p2@ { [p0, p1, p2].concat() }
@@ -560,6 +582,18 @@ pub fn f64_to_string(x: f64) -> (r: String) ensures r@ == fmt_shortest(x) { x.to
 pub uninterp spec fn f64_le_zero(x: f64) -> bool;
 #[verifier::external_body]
 pub fn f64_le0(x: f64) -> (r: bool) ensures r == f64_le_zero(x) { x <= 0.0 }
+/// `match o { Some("LIT") => .. }` on an Option<&str>
+#[verifier::external_body]
+pub fn opt_str_is(o: Option<&str>, lit: &str) -> (r: bool) ensures r == (o.is_some() && o.unwrap()@ == lit@) { o == Some(lit) }
+/// `String::from(&str)`
+#[verifier::external_body]
+pub fn string_from(s: &str) -> (r: String) ensures r@ == s@ { String::from(s) }
+/// an unconstrained string: stands for a computed format! argument the extraction abstracts (see rsx.abs_format_args)
+#[verifier::external_body]
+pub fn any_string() -> String { unimplemented!() }
+/// an unconstrained boolean: stands for a guard the extraction abstracts (see rsx.havoc_guards)
+#[verifier::external_body]
+pub fn havoc() -> bool { unimplemented!() }
 pub uninterp spec fn f64_between(x: f64, lo: f64, hi: f64) -> bool;
 #[verifier::external_body]
 pub fn f64_in(x: f64, lo: f64, hi: f64) -> (r: bool) ensures r == f64_between(x, lo, hi) { (lo..=hi).contains(&x) }
